@@ -19,6 +19,7 @@ import ArvVerif.Base.Loop
 import ArvVerif.Model.C14
 import ArvVerif.Model.C14_Pool
 import ArvVerif.Model.C14_Queue
+import ArvVerif.Model.C14_Proto
 open ArvVerif ArvVerif.C14
 
 namespace C14Drv
@@ -523,6 +524,24 @@ def runLq (recs ops : String) : Option String := do
   let ents := (sortRecs x.cache).map (fun p => s!"{p.1}:{showQS p.2.state}:{p.2.prio}")
   pure (joinOr x.out ++ ";" ++ joinOr ents)
 
+/-! ### `snp`: the invariant check of Model/C14_Proto.lean on snapshots of the real pool
+
+  snp <snapshot|snapshot|…>     snapshot = worker,worker,…   worker = id:S:starting:running:procs
+   → `ok`, or `bad <index>` of the first snapshot that fails `snapOK` -/
+
+def parseSnapW (s : String) : Option SnapW :=
+  match s.splitOn ":" with
+  | [id, st, sg, rg, pr] => do
+    pure ⟨← id.toNat?, ← parseWS st, ← parseUs sg, ← parseUs rg, ← parseUs pr⟩
+  | _ => none
+
+def runSnp (snaps : String) : Option String := do
+  let ss ← (if snaps == "-" then some [] else (snaps.splitOn "|").mapM (fun sn =>
+    (splitList sn).mapM parseSnapW))
+  match (ss.zipIdx).find? (fun p => !snapOK p.1) with
+  | some p => pure s!"bad {p.2}"
+  | none => pure "ok"
+
 end C14Drv
 
 def step (line : String) : String :=
@@ -530,6 +549,7 @@ def step (line : String) : String :=
   let r := match f with
     | ["pl", ws, ex, ops] => C14Drv.runPl ws ex ops
     | "e2e" :: _ => some "e2e-no-model"
+    | ["snp", snaps] => C14Drv.runSnp snaps
     | ["lq", recs, ops] => C14Drv.runLq recs ops
     | _ => C14Drv.stepL1 f
   match r with
